@@ -350,6 +350,10 @@ func TestC30(t *testing.T) {
 				yield(withConcretisation(c, rnd))
 			}
 		}
+		// hand-written regression layouts (counterexamples TLC found in the model, confirmed on the code)
+		for _, c := range regressionLayouts() {
+			yield(withConcretisation(c, rnd))
+		}
 		nrand := vt.Pick(1500, 20000)
 		for i := 0; i < nrand && !planHung.Load(); i++ {
 			yield(withConcretisation(randomLayout(rnd), rnd))
@@ -425,4 +429,22 @@ func randomLayout(r *rand.Rand) vt.Case {
 		ds = kind == "vdown" && r.Intn(2) == 0
 	}
 	return vt.Case{"ranges": rs, "blocks": blocks, "kind": kind, "thr": thr, "ds": ds, "src": "rand"}
+}
+
+func plainBlock(mint, maxt, isz int) map[string]any {
+	return map[string]any{"mint": mint, "maxt": maxt, "nc": false, "tomb": 0, "ser": 19, "failed": false, "isz": isz}
+}
+
+// regressionLayouts: (1) the vertical-compaction downsample filter forgot the no-compact marks its
+// inner index-size filter had made in an earlier round and planned a block that this very Plan
+// call had marked no-compact (found by TLC on PlannerMC with 4 blocks; fixed in planner.go).
+func regressionLayouts() []vt.Case {
+	var out []vt.Case
+	for _, thr := range []int{3, 4} {
+		for _, first := range []int{1, 2} {
+			out = append(out, vt.Case{"ranges": []int{1, 2, 4}, "kind": "vdown", "thr": thr, "ds": true, "src": "regress",
+				"blocks": []any{plainBlock(0, 2, first), plainBlock(2, 4, 1), plainBlock(2, 4, 1), plainBlock(2, 4, 1)}})
+		}
+	}
+	return out
 }
